@@ -10,6 +10,7 @@
 -/
 import ALV.Lemmas.C01Py
 import ALV.Lemmas.C01Bcast
+import ALV.Lemmas.C01ExcPy
 import ALV.Gen.OpTable
 import ALV.Common.Audit
 
@@ -40,6 +41,59 @@ theorem spectable_shape :
     (specTable.filter (fun sp => sp.reflected)).length = 13 ∧
     (∀ sp ∈ specTable, sp.arity = 1 ∨ sp.arity = 2) ∧
     (∀ sp ∈ specTable, sp.reflected = true → sp.arity = 2) := by decide
+
+/-! ### C01.3c — any class built with the metaclass: missing builders, `__operators__` selections -/
+
+/-- with all three builders present the general loop is the loop of `class Stream` -/
+theorem installW_full (T : TableSrc) (ns : List Name) : ∀ (ops : List OpMethod) (acc : List (Name × Dunder)),
+    installLoopW T (fun _ => true) ns ops acc =
+      match installLoop { T with classNamespace := ns } ops acc with
+      | some r => .ok r
+      | none => .error .keyError := by
+  intro ops
+  induction ops with
+  | nil => intro acc; rfl
+  | cons op ops ih =>
+    intro acc
+    simp only [installLoopW, installLoop]
+    by_cases h : ns.contains op.dname = true
+    · simp only [h, if_true]; exact ih acc
+    · simp only [h, Bool.false_eq_true, if_false]
+      cases hb : (T.dispatch.lookup (op.rev, op.arity)).bind builderOfName with
+      | none => rfl
+      | some b => simp only [if_true]; exact ih _
+
+/-- class creation succeeds exactly when every selected operator method that the class body does not
+    define itself has a builder; otherwise it fails (TypeError naming an operator method, or KeyError) -/
+theorem installW_ok_iff (T : TableSrc) (hv : Builder → Bool) (ns : List Name) :
+    ∀ (ops : List OpMethod) (acc : List (Name × Dunder)),
+    (installLoopW T hv ns ops acc).isOk =
+      ops.all fun op => ns.contains op.dname ||
+        (match (T.dispatch.lookup (op.rev, op.arity)).bind builderOfName with
+         | some b => hv b
+         | none => false) := by
+  intro ops
+  induction ops with
+  | nil => intro acc; rfl
+  | cons op ops ih =>
+    intro acc
+    simp only [installLoopW, List.all_cons]
+    by_cases h : ns.contains op.dname = true
+    · simp only [h, if_true, Bool.true_or, Bool.true_and]; exact ih acc
+    · simp only [h, Bool.false_eq_true, if_false, Bool.false_or]
+      cases hb : (T.dispatch.lookup (op.rev, op.arity)).bind builderOfName with
+      | none => simp [Except.isOk, Except.toBool]
+      | some b =>
+        cases hvb : hv b with
+        | true => simp only [hvb, if_true, Bool.true_and]; exact ih _
+        | false => simp [hvb, Except.isOk, Except.toBool]
+
+/-- non-vacuity: a metaclass with only `__binary__` asked for `"+"` (add, radd, pos) fails at `__radd__`;
+    asked for `add` alone it succeeds; an unknown operator name is a ValueError -/
+example : installW ALV.Gen.OpTable.table (fun b => b == .binary) [] [n!"+"] [] = .error (.noBuilder n!"__radd__") := by rfl
+example : (installW ALV.Gen.OpTable.table (fun b => b == .binary) [] [n!"add"] []).isOk = true := by decide
+example : (installW ALV.Gen.OpTable.table (fun b => b == .binary) [n!"__radd__", n!"__pos__"] [n!"+"] []).isOk = true := by decide
+example : installW ALV.Gen.OpTable.table (fun _ => true) [] [n!"div"] [] = .error .valueError := by rfl
 
 /-! ### C01.1 / C01.2 — iterator trees (any shape, any depth, finite / empty / unequal / endless) -/
 
@@ -284,7 +338,7 @@ theorem elementwise_lazy (c : ECall) (k : CKind) (src : Iter) (ha : c.arg = .laz
   · rw [hd]; rfl
   · intro n
     rw [hd]
-    show ((Iter.mapc c.f pre post src).runS n).1 = _
+    show ((Iter.mapc true c.f pre post src).runS n).1 = _
     rw [Iter.runS_mapc, hfun]; rfl
   · intro n
     rw [hd, Iter.runS_mapc]; rfl
@@ -308,7 +362,7 @@ theorem elementwise_cast (c : ECall) (k : CKind) (t : Nat) (xs : List Term) (ha 
   rw [ha] at hw
   simp only [BArg.wf, Bool.and_eq_true, Bool.not_eq_true'] at hw
   obtain ⟨⟨⟨h1, h2⟩, h3⟩, h4⟩ := hw
-  refine ⟨.mapc c.f pre post (.list t []), ?_, rfl⟩
+  refine ⟨.mapc true c.f pre post (.list t []), ?_, rfl⟩
   unfold elementwise
   rw [hk']
   simp only [ha, BArg.kind, h1, h2, h3, h4, BArg.drainFuel, hd, Iter.runS_mapc, Iter.runS_list_drain, hfun]
@@ -324,7 +378,7 @@ example : (demoCall (.sized .tuple 3 [.atom 1, .atom 2])).found = true := by dec
 example : elementwise (demoCall (.sized .tuple 3 [.atom 1, .atom 2])) =
     .cast .tuple [.app n!"f" [.atom 1, .atom 10, kwMarker n!"base", .atom 11],
                   .app n!"f" [.atom 2, .atom 10, kwMarker n!"base", .atom 11]]
-      (.mapc n!"f" [] [.atom 10, kwMarker n!"base", .atom 11] (.list 3 [])) := by rfl
+      (.mapc true n!"f" [] [.atom 10, kwMarker n!"base", .atom 11] (.list 3 [])) := by rfl
 example : (elementwise (demoCall (.lazy .filter (.list 3 [.atom 1, .atom 2])))).kind = .generator := by rfl
 example : (elementwise (demoCall (.obj .str (.atom 5)))) =
     .value (.app n!"f" [.atom 5, .atom 10, kwMarker n!"base", .atom 11]) := by rfl
@@ -332,7 +386,206 @@ example : (elementwise (demoCall (.obj .str (.atom 5)))) =
 example : elementwise { f := n!"f", dname := n!"x", dpos := some 1, args := [.atom 7],
                         kwargs := [(n!"x", .atom 0), (n!"base", .atom 11)], arg := .sized .list 0 [.atom 1] } =
     .cast .list [.app n!"f" [.atom 7, kwMarker n!"x", .atom 1, kwMarker n!"base", .atom 11]]
-      (.mapc n!"f" [.atom 7, kwMarker n!"x"] [kwMarker n!"base", .atom 11] (.list 0 [])) := by rfl
+      (.mapc true n!"f" [.atom 7, kwMarker n!"x"] [kwMarker n!"base", .atom 11] (.list 0 [])) := by rfl
+
+/-! ### C01.5 — an element operation RAISES in the middle and the caller goes on reading
+
+`bad` says for which applications python raises; every theorem holds for every `bad`.
+`Iter.drainE bad n it` = what `n` calls of `next` in a try/except loop deliver (until the first
+StopIteration); `Iter.takeE` = `Stream.take(k)`. -/
+
+/-- **C01.5a** a map object (unary operator, operator with a scalar operand on either side,
+`Stream.map`, `abs`): position by position — where the operand has an item the outcome is `f(item)` or
+its exception, where the operand's own computation raised that exception stands; in particular the
+positions AFTER an exception are still `f(x[i+1])`, … -/
+theorem exc_map (bad : Term → Bool) (f : Name) (pre post : List Term) (a : Iter) (n : Nat) :
+    (Iter.mapc false f pre post a).drainE bad n =
+      mapOuts bad (fun x => .app f (pre ++ x :: post)) (a.drainE bad n) :=
+  Iter.drainE_map bad f pre post n a
+
+/-- … position `i` of the result is the lifted position `i` of the operand, for every `i` -/
+theorem exc_map_get (bad : Term → Bool) (f : Name) (pre post : List Term) (a : Iter) (n i : Nat) :
+    ((Iter.mapc false f pre post a).drainE bad n)[i]? =
+      ((a.drainE bad n)[i]?).map (liftOut bad fun x => .app f (pre ++ x :: post)) := by
+  rw [exc_map]; simp [mapOuts]
+
+/-- **C01.5b** … and the result ends exactly when its operand ends, exceptions or not. -/
+theorem exc_map_length (bad : Term → Bool) (f : Name) (pre post : List Term) (a : Iter) (n : Nat) :
+    ((Iter.mapc false f pre post a).drainE bad n).length = (a.drainE bad n).length := by
+  rw [exc_map]; simp [mapOuts]
+
+/-- **C01.5c** a generator expression (`s.attr`, `s(...)`, the lazy result of a broadcast function) is
+the same up to and including the first exception and delivers nothing after it. -/
+theorem exc_gen (bad : Term → Bool) (f : Name) (pre post : List Term) (a : Iter) (n : Nat) :
+    (Iter.mapc true f pre post a).drainE bad n =
+      cutRaise (mapOuts bad (fun x => .app f (pre ++ x :: post)) (a.drainE bad n)) :=
+  Iter.drainE_gen bad f pre post n a
+
+/-- **C01.5d** `map(f, a, b)` (two iterable operands): the outcomes are `merge2` of the operands'
+outcomes — an exception of `a`'s own computation stands and does not advance `b`; an item of `a` meets
+the next outcome of `b`. -/
+theorem exc_map2 (bad : Term → Bool) (f : Name) (a b : Iter) (n m : Nat) (h : n ≤ m) :
+    (Iter.map2 f a b).drainE bad n = merge2 bad f (a.drainE bad n) (b.drainE bad m) :=
+  Iter.drainE_map2 bad f n m a b h
+
+/-- … when the operand python evaluates first never raises (plain data, or computations that succeed):
+position by position, ending exactly with the shortest operand — whatever the second operand raises. -/
+theorem exc_map2_aligned (bad : Term → Bool) (f : Name) (a b : Iter) (n : Nat)
+    (ha : allItems (a.drainE bad n) = true) :
+    (Iter.map2 f a b).drainE bad n = zipOuts bad f (a.drainE bad n) (b.drainE bad n) ∧
+    ((Iter.map2 f a b).drainE bad n).length = Nat.min (a.drainE bad n).length (b.drainE bad n).length := by
+  have h1 : (Iter.map2 f a b).drainE bad n = zipOuts bad f (a.drainE bad n) (b.drainE bad n) := by
+    rw [exc_map2 bad f a b n n (Nat.le_refl _), merge2_eq_zip bad f _ _ ha]
+  exact ⟨h1, by rw [h1, zipOuts_length bad f _ _ ha (Iter.drainE_no_stop bad n b)]⟩
+
+/-- **C01.5e** `itertools.chain` (`Stream(a, b)`, `append`): all outcomes of `a` — exceptions included —
+then those of `b`. -/
+theorem exc_chain (bad : Term → Bool) (a b : Iter) (n : Nat) :
+    (Iter.chain a b).drainE bad n = a.drainE bad n ++ b.drainE bad (n - (a.drainE bad n).length) :=
+  Iter.drainE_chain bad n a b
+
+/-- **C01.5f** `take(k)` after / across an exception: the `k` items that `k` calls of `next` deliver, or the
+first exception among them … -/
+theorem exc_take (bad : Term → Bool) (e : Iter) (k : Nat) : (e.takeE bad k).1 = takeOuts (e.drainE bad k) :=
+  Iter.takeE_outs bad k e
+
+/-- … and (when the data does not end within these `k` calls) the Stream goes on right after the
+exception resp. after the `k` items: a later read sees the outcomes that follow. -/
+theorem exc_take_state (bad : Term → Bool) (e : Iter) (k m : Nat) (h : (e.drainE bad k).length = k) :
+    ((e.takeE bad k).2).drainE bad m =
+      (e.drainE bad (takeUsed (e.drainE bad k) + m)).drop (takeUsed (e.drainE bad k)) :=
+  Iter.takeE_state bad k e h m
+
+/-- **C01.5g** conservative: when no element operation raises, the reading with exceptions is the
+reading without (so C01.1 / C01.2 above are the special case `bad = fun _ => false`). -/
+theorem exc_total (bad : Term → Bool) (hb : ∀ t, bad t = false) (e : Iter) (n : Nat) :
+    e.drainE bad n = (e.run n).map .item :=
+  Iter.drainE_total bad hb n e
+
+/-- **C01.5h** For every well-typed Stream expression `p` — any nesting of the 35 operator methods,
+scalars on either side, iterable operands, unary operators, `map`/`abs`/attribute/call, `Stream(..)`,
+`append` — and every `bad`: reading the value with `next` in a try/except loop delivers `p.outs bad`:
+the compositional element-by-element reading of section `Spec/C01Exc.lean`. -/
+theorem exc_eval (bad : Term → Bool) (p : Py) (hp : p.sort = some .stream) :
+    ∃ it, evalPy genInstalled p = .ok (.iterable true it) ∧ ∀ n, it.drainE bad n = p.outs bad n := by
+  obtain ⟨v, hv, hs, hd⟩ := evalPy_outs bad genInstalled optable_correct p _ hp
+  obtain ⟨it, rfl⟩ := Val.of_sort_stream hs
+  exact ⟨it, hv, hd⟩
+
+/-- **C01.5i** … and when `p` has no attribute-access / call node (the two generator expressions of
+`class Stream`) this is the property's reading `p.outsP`, in which EVERY operation goes on after an
+exception. -/
+theorem exc_eval_property (bad : Term → Bool) (p : Py) (hp : p.sort = some .stream) (hg : p.genFree = true) :
+    ∃ it, evalPy genInstalled p = .ok (.iterable true it) ∧ ∀ n, it.drainE bad n = p.outsP bad n := by
+  obtain ⟨it, h1, h2⟩ := exc_eval bad p hp
+  exact ⟨it, h1, fun n => by rw [h2, Py.outs_eq_outsP bad p hg]⟩
+
+/-- **C01.5j** broadcast functions, lazy inputs (generators & co, Streams): nothing is computed by the call;
+reading delivers the function applied item by item up to the first element on which it raises, that
+exception, and then nothing (the result is a generator expression). -/
+theorem elementwiseE_lazy (bad : Term → Bool) (c : ECall) (k : CKind) (src : Iter) (ha : c.arg = .lazy k src)
+    (hk : k.isSomeGen = true ∨ k.isStream = true) (hf : c.found = true) :
+    ∃ it, (elementwiseE bad c = if k.isSomeGen then .gen it else .stream it) ∧
+      ∀ n, it.drainE bad n = bcastOuts bad c (src.drainE bad n) := by
+  have hk' : (!c.isPositional && !(c.kwargs.any fun kv => kv.1 == c.dname)) = false := by
+    unfold ECall.found at hf
+    rw [← ECall.positional_eq] at hf
+    cases h1 : c.isPositional <;> cases h2 : (c.kwargs.any fun kv => kv.1 == c.dname) <;> simp_all
+  obtain ⟨pre, post, hd, hx⟩ := ECall.data_spec c hf
+  have hiter : c.arg.iter = src := by rw [ha]; rfl
+  rw [hiter] at hd
+  have hfun : (fun x => Term.app c.f (pre ++ x :: post)) = c.callWith := funext hx
+  refine ⟨c.data, ?_, fun n => ?_⟩
+  · unfold elementwiseE
+    rw [hk']
+    have hit : k.isIterable = true := by cases k <;> simp_all [CKind.isIterable, CKind.isSomeGen, CKind.isStream]
+    have hns : k.isStr = false := by cases k <;> simp_all [CKind.isStr, CKind.isSomeGen, CKind.isStream]
+    simp only [ha, BArg.kind, hit, hns]
+    cases hg : k.isSomeGen with
+    | true => simp
+    | false =>
+      have : k.isStream = true := by rcases hk with h | h <;> simp_all
+      simp [this]
+  · rw [hd, exc_gen, hfun]; rfl
+
+/-- **C01.5k** broadcast functions, scalar in: the value, or the exception of the function itself. -/
+theorem elementwiseE_scalar (bad : Term → Bool) (c : ECall) (k : CKind) (self : Term) (ha : c.arg = .obj k self)
+    (hk : k = .scalar ∨ k = .str) (hf : c.found = true) :
+    elementwiseE bad c = .value (chk bad (c.callWith self)) := by
+  have hk' : (!c.isPositional && !(c.kwargs.any fun kv => kv.1 == c.dname)) = false := by
+    unfold ECall.found at hf
+    rw [← ECall.positional_eq] at hf
+    cases h1 : c.isPositional <;> cases h2 : (c.kwargs.any fun kv => kv.1 == c.dname) <;> simp_all
+  have hp := ECall.plainCall_spec c hf
+  rw [ha] at hp
+  unfold elementwiseE
+  rw [hk']
+  rcases hk with rfl | rfl <;> simp [ha, BArg.kind, CKind.isIterable, CKind.isStr, hp, BArg.self]
+
+/-- **C01.5l** broadcast functions, sized containers: the call itself applies the function to the items
+in order; the first item on which it raises makes the CALL raise that exception (no container). -/
+theorem elementwiseE_cast (bad : Term → Bool) (c : ECall) (k : CKind) (t : Nat) (xs : List Term)
+    (ha : c.arg = .sized k t xs) (hw : c.arg.wf = true) (hf : c.found = true) :
+    ∃ left, elementwiseE bad c = .cast k (takeOuts (bcastOuts bad c (xs.map .item))) left := by
+  have hk' : (!c.isPositional && !(c.kwargs.any fun kv => kv.1 == c.dname)) = false := by
+    unfold ECall.found at hf
+    rw [← ECall.positional_eq] at hf
+    cases h1 : c.isPositional <;> cases h2 : (c.kwargs.any fun kv => kv.1 == c.dname) <;> simp_all
+  obtain ⟨pre, post, hd, hx⟩ := ECall.data_spec c hf
+  have hiter : c.arg.iter = .list t xs := by rw [ha]; rfl
+  rw [hiter] at hd
+  have hfun : (fun x => Term.app c.f (pre ++ x :: post)) = c.callWith := funext hx
+  rw [ha] at hw
+  simp only [BArg.wf, Bool.and_eq_true, Bool.not_eq_true'] at hw
+  obtain ⟨⟨⟨h1, h2⟩, h3⟩, h4⟩ := hw
+  refine ⟨(c.data.takeE bad (xs.length + 1)).2, ?_⟩
+  unfold elementwiseE
+  rw [hk']
+  simp only [ha, BArg.kind, h1, h2, h3, h4, BArg.drainFuel]
+  simp only [Bool.not_false, Bool.and_true, if_true, Bool.false_eq_true, if_false]
+  congr 1
+  rw [exc_take, hd, exc_gen, hfun, Iter.drainE_data bad _ (.list t xs) rfl, Iter.run_list,
+    List.take_of_length_le (Nat.le_succ xs.length)]
+  rfl
+
+/-! non-vacuity of C01.5: `1 / Stream([1, 0, 2, 4])`-like readings -/
+
+/-- python raises exactly for `f(·, atom 0)` resp. `f(atom 0)` -/
+def demoBad : Term → Bool
+  | .app _ [_, .atom 0] => true
+  | .app _ [.atom 0] => true
+  | _ => false
+
+/-- `s.__rtruediv__(c7)` over `[1, 0, 2]`, then `+ [10, 20, 30]` with the raising tree on the LEFT:
+the second operand falls one position behind — the exact behaviour of `map` -/
+def demoE : Py :=
+  .bin n!"__add__" (.bin n!"__rtruediv__" (.stream1 (.iterable 0 [.atom 1, .atom 0, .atom 2])) (.scalar (.atom 7)))
+    (.iterable 1 [.atom 10, .atom 20, .atom 30])
+
+example : demoE.sort = some .stream := by decide
+example : demoE.genFree = true := by decide
+example : demoE.outs demoBad 5 =
+    [.item (.app n!"__add__" [.app n!"__truediv__" [.atom 7, .atom 1], .atom 10]),
+     .raised (.app n!"__truediv__" [.atom 7, .atom 0]),
+     .item (.app n!"__add__" [.app n!"__truediv__" [.atom 7, .atom 2], .atom 20])] := by rfl
+/-- scalar operand: the seed's situation — position 1 raises, position 2 is still `7 / x[2]`, 3 outcomes -/
+example : (Iter.mapL n!"__truediv__" (.atom 7) (.list 0 [.atom 1, .atom 0, .atom 2])).drainE demoBad 9 =
+    [.item (.app n!"__truediv__" [.atom 7, .atom 1]), .raised (.app n!"__truediv__" [.atom 7, .atom 0]),
+     .item (.app n!"__truediv__" [.atom 7, .atom 2])] := by rfl
+/-- the same written as a generator expression ends after the exception -/
+example : (Iter.mapc true n!"__truediv__" [.atom 7] [] (.list 0 [.atom 1, .atom 0, .atom 2])).drainE demoBad 9 =
+    [.item (.app n!"__truediv__" [.atom 7, .atom 1]), .raised (.app n!"__truediv__" [.atom 7, .atom 0])] := by rfl
+/-- `take(2)` twice over `[1, 0, 2, 4]`: the first raises (its first item is lost), the second gives the rest -/
+example : ((Iter.mapL n!"f" (.atom 7) (.list 0 [.atom 1, .atom 0, .atom 2, .atom 4])).script demoBad [.take 2, .take 2]).1 =
+    [.took (.error (.app n!"f" [.atom 7, .atom 0])),
+     .took (.ok [.app n!"f" [.atom 7, .atom 2], .app n!"f" [.atom 7, .atom 4]])] := by rfl
+example : allItems ((Iter.list 0 [.atom 1, .atom 0]).drainE demoBad 5) = true := by rfl
+/-- a sized container with a raising element in the middle: the call raises -/
+example : elementwiseE (fun t => match t with | .app _ (.atom 0 :: _) => true | _ => false)
+      (demoCall (.sized .tuple 3 [.atom 1, .atom 0, .atom 2])) =
+    .cast .tuple (.error (.app n!"f" [.atom 0, .atom 10, kwMarker n!"base", .atom 11]))
+      (.dead (.list 3 [.atom 2])) := by rfl
+example : (demoCall (.lazy .generator (.list 3 [.atom 1, .atom 0, .atom 2]))).found = true := by decide
 
 end ALV.Props.C01
 
